@@ -597,6 +597,8 @@ theorem parseMassConserving_post (ctx : Ctx R) (c : Cur) :
   refine EPost.bind (EPost.triv _) (fun nPts _ => ?_)
   split
   · exact EPost.error_bind
+  split
+  · exact EPost.error_bind
   refine EPost.bind (P := fun sv0 => subVel[0]? = some sv0) (fun a h => (idx_ok_iff _ _ _).1 h) (fun sv0 hsv0 => ?_)
   have hfinal : ∀ m : MassConserving R, m.ridge = ridge → m.subVel = subVel → m.migrationTimes = first →
       (sv0.length > 1 → first.length = ridge.ridges.length ∧
